@@ -7,7 +7,7 @@ RULE = ("E1: ModfileModel - keyed collections with the documented effect of ever
         "duplicates x lines/block/commented block/split blocks x comment decoration, surrounded by other directives) x every operation "
         "instance, all ordered pairs on mixed layouts, and simulated sequences of up to 6 operations, with the model state after each "
         "prefix; the harness renders, parses, applies (Cleanup before bulk setters and at the end), formats, re-parses strictly and "
-        "compares directives as multisets and comment identities of untouched entries. E3: random sessions of 3-15 operations over seed "
+        "compares directives as multisets and comment identities of untouched entries; arbitrary string arguments (every string of up to 3/4 characters over 25 classes, specification ModfileQuote) go through AddUse / AddReplace of go.work and go.mod, Format and the strict parser and must read back unchanged. E3: random sessions of 3-15 operations over seed "
         "files, replayed through the model by ModfileModelTrace. Non-trivial = every session (at least one operation).")
 
 
